@@ -68,6 +68,7 @@ class Runaway(BaseException):
 
 
 MAX_CALLS = 6000
+CUT_AT = 2000  # a loop that is still running at this call is cut by an injected exception (and reported in the histogram)
 
 
 # ---------------------------------------------------------------------------------
@@ -88,6 +89,7 @@ class Dialogue:
         self.active = True
         self.runaway = False
         self.unlinearisable = None
+        self.cut = False
         self.resume_status = []  # (call index, trial, backend status just before `resume_trial`)
         self.probe = None  # optional: number of busy workers in the backend's truth, sampled at every call
 
@@ -131,7 +133,9 @@ class Dialogue:
             e["_occ"] = self.probe()
         idx = len(self.entries)
         self.entries.append(e)
-        if self.inject_at is not None and idx == self.inject_at:
+        if idx == CUT_AT:
+            self.cut = True
+        if (self.inject_at is not None and idx == self.inject_at) or idx == CUT_AT:
             ex = InjectedError(f"injected at call {idx}")
             self._attributed.add(id(ex))
             e["ans"] = {"raise": "InjectedError"}
@@ -864,8 +868,10 @@ def run_loop(spec):
             try:
                 tuner.run()
             except Runaway as ex:
-                ex.dlg = dlg
-                raise
+                tail = [e["call"] for e in dlg.entries[-12:]]
+                err = RuntimeError(f"tuning loop does not end ({ex}); last calls {tail}")
+                err.dlg = dlg
+                raise err
             except BaseException as ex:  # noqa
                 raised = type(ex).__name__ + (":" + str(ex) if isinstance(ex, ValueError) and "failed" in str(ex) else "")
                 raised_obj = ex
@@ -971,12 +977,13 @@ def rows_wire(t):
     return out
 
 
-def to_lines(t):
+def to_lines(t, view=None):
     dlg = t["dlg"]
     entries = dlg.entries
     final = dict(t["final"])
     final["raised"] = classify_raised(t)
     final["rows"] = rows_wire(t)
+    final["best_rows"] = best_rows_wire(t, view) if view is not None else None
     lines = [(t["header"], {"call": entries[0]["call"]})]
     for i, e in enumerate(entries):
         if i + 1 < len(entries):
@@ -1016,6 +1023,9 @@ def _cmp_stat(where, impl, model):
 def compare(inp, impl, model):
     if impl is None:
         return None
+    if inp.get("op") == "mode_lookup":
+        from framework import default_compare
+        return default_compare(inp, impl, model)
     if "err" in model:
         return f"model error {model['err']}"
     mo = model.get("out", {})
@@ -1048,6 +1058,8 @@ def compare(inp, impl, model):
             return f"rows: impl {fi['rows'][:6]} model {fm['rows'][:6]} (lengths {len(fi['rows'])}/{len(fm['rows'])})"
         if fi["rows"] is None and fm["rows"]:
             return "model has rows without a StoreResultsCallback"
+        if fi.get("best_rows") is not None and fi["best_rows"] != fm["best_rows"]:
+            return f"best rows of the stored table: impl {fi['best_rows']} model {fm['best_rows']}"
     return None
 
 
@@ -1220,6 +1232,8 @@ def histogram(t):
     for f in decisive_fields(t):
         h["criterion-true-at-exit:" + f] = 1
     h["n_calls"] = len(t["dlg"].entries)
+    if t["dlg"].cut:
+        h["loop-cut-after-%d-calls" % CUT_AT] = 1
     for e in t["dlg"].entries:
         a = e["ans"]
         if isinstance(a, dict) and "d" in a:
@@ -1466,4 +1480,391 @@ def monitor_c20_loop(t):
             out.append(F(sig, f"new trial {c[3]} is warm-started from trial {c[2]} whose checkpoint was deleted before (copy_checkpoint "
                               f"answered {a})", {"call": i}))
         prev = c
+    return out
+
+
+def monitor_c12(t):
+    """C12 on the recorded dialogue + the backend after run() has returned"""
+    out = []
+    calls = _calls(t)
+    hdr = t["header"]
+    raised = classify_raised(t)
+    crit = t["recorder"].crit_trace  # (dialogue position, value) of every `_stop_condition()` of the loop
+    # (a) exit: after the first True no further iteration unless `wait` with running trials; no start/resume after it
+    first_true = next((pos for pos, v in crit if v), None)
+    if first_true is not None:
+        later = [(i, c, a) for i, c, a in calls if i >= first_true]
+        for i, c, a in later:
+            if c[:2] in (["be", "start"], ["be", "resume"]) or c[:2] == ["sched", "suggest"]:
+                out.append(F("c12:start-after-criterion", f"{c} issued after the stopping criterion held", {"call": i}))
+                break
+        if not hdr["wait"]:
+            if any(c == ["cb", "loop_start"] for _, c, _ in later):
+                out.append(F("c12:continued-after-criterion", "a new iteration began although the criterion held", {"at": first_true}))
+        else:
+            # with wait: every further iteration must have had running trials at its start
+            prev_fetch = None
+            for i, c, a in later:
+                if c[:2] == ["be", "fetch"] and len(c[2]) == 0:
+                    out.append(F("c12:continued-after-criterion", "iteration with no running trial after the criterion held", {"call": i}))
+                    break
+    # exit without reason: normal return although criterion never held, nothing exhausted
+    if raised is None and not any(v for _, v in crit):
+        exhausted = any(isinstance(a, dict) and a.get("kind") == "none" for _, c, a in calls if c[:2] == ["sched", "suggest"])
+        if not exhausted:
+            out.append(F("c12:exit-without-criterion", "run() returned although the criterion never held and the space was not exhausted"))
+    # (b) overshoot of count budgets (judged on the status when the loop was left, i.e. at `on_tuning_end`,
+    #     before stop_all turns the still running trials into stopped ones)
+    fin = t["final"]
+    c = t["spec_criterion"]
+    n = hdr["n_workers"]
+    snaps = t["recorder"].snapshots
+    if snaps and any(cc == ["cb", "tuning_end"] for _, cc, _ in calls):
+        at_end = snaps[-1]
+        vals = list(at_end.values())
+        counts = {"started": len(vals), "completed": sum(1 for v in vals if v == Status.completed),
+                  "finished": sum(1 for v in vals if v in (Status.completed, Status.stopped, Status.stopping, Status.failed))}
+        for key, fld in (("max_num_trials_started", "started"), ("max_num_trials_completed", "completed"),
+                         ("max_num_trials_finished", "finished")):
+            # with wait_trial_completion_when_stopping the trials started in the last regular iteration still run to
+            # their end: one more batch of at most n_workers completions
+            slack = n if fld == "started" or not hdr["wait"] else 2 * n
+            if key in c and counts[fld] > int(c[key]) + slack:
+                out.append(F("c12:overshoot", f"{fld}={counts[fld]} when the loop was left, with {key}={c[key]} and n_workers={n}"))
+    # (c) nothing left running (unless the finaliser itself was interrupted)
+    fin_interrupted = False
+    seen_end = False
+    for i, cc, a in calls:
+        if cc == ["cb", "tuning_end"]:
+            seen_end = True
+        if seen_end and isinstance(a, dict) and "raise" in a:
+            fin_interrupted = True
+    be = t["backend"]
+    if not fin_interrupted:
+        if isinstance(be, ScriptBackend):
+            left = [tid for tid, tr in be.truth.items() if tr["status"] == Status.in_progress]
+        else:
+            # simulator: trials that were visible to stop_all (had reported by then) and are still in progress
+            visible = set()
+            for i, cc, a in calls:
+                if cc == ["be", "all_results"] and isinstance(a, dict) and "ids" in a:
+                    visible |= set(a["ids"])
+            left = [tid for tid in visible if getattr(be._trial_dict.get(tid), "status", None) == Status.in_progress]
+        if left:
+            out.append(F("c12:left-running", f"trials {left} still in progress in the backend after run() returned ({raised})"))
+    # (d) counters = numbers of trials in each state, the state of a trial being what the backend reported
+    #     for it last / what the loop decided for it
+    if "last" in fin and not fin_interrupted:
+        got = dict((x, y) for x, y in fin["last"])
+        reported = {}   # trial -> set of statuses ever polled
+        decided = {}    # trial -> decisions taken
+        started = set()
+        for i, cc, a in calls:
+            if cc[:2] == ["be", "fetch"] and isinstance(a, dict) and "status" in a:
+                for tid, st in a["status"]:
+                    reported.setdefault(tid, set()).add(st)
+            if cc[:2] == ["cb", "result"]:
+                decided.setdefault(cc[2], set()).add(cc[4])
+            if cc[:2] == ["cb", "start"] and a == {"ret": True}:
+                started.add(cc[2])
+        for tid in started:
+            if tid not in got:
+                out.append(F("c12:counters-mismatch", f"trial {tid} was started but is not counted"))
+        for tid, st in got.items():
+            ok = True
+            if st in (Status.completed, Status.failed, Status.stopping):
+                ok = st in reported.get(tid, set())
+            elif st == Status.paused:
+                ok = "PAUSE" in decided.get(tid, set())
+            elif st == Status.stopped:
+                ok = True  # decided STOP, reported stopped, or still running when tuning ended (stop_all)
+            elif st == Status.in_progress:
+                ok = False
+            if not ok:
+                out.append(F("c12:counters-mismatch", f"trial {tid} is counted as {st} without a poll / decision saying so"))
+        cls = lambda pred: sum(1 for v in got.values() if pred(v))
+        want = {"started": len(got), "completed": cls(lambda v: v == Status.completed), "failed": cls(lambda v: v == Status.failed),
+                "finished": cls(lambda v: v in (Status.completed, Status.stopped, Status.stopping, Status.failed)), "running": 0}
+        for k, v in want.items():
+            if fin[k] != v:
+                out.append(F("c12:counters-mismatch", f"num_trials_{k}={fin[k]} but {v} trials are in that class"))
+        # trials whose run ended before the last poll must be recorded with that final status
+        if isinstance(be, ScriptBackend) and not fin_interrupted:
+            last_fetch = max([i for i, cc, a in calls if cc[:2] == ["be", "fetch"]], default=-1)
+            for tid, tr in be.truth.items():
+                ended = tr.get("ended_at")
+                if ended is not None and ended < last_fetch and tr["status"] in (Status.completed, Status.failed) \
+                        and got.get(tid) not in (tr["status"], Status.paused, None) and got.get(tid) == Status.stopped:
+                    polled_later = any(cc[:2] == ["be", "fetch"] and tid in cc[2] for i, cc, a in calls if i > ended)
+                    if not polled_later:
+                        out.append(F("c01:trial-never-polled-after-rebind",
+                                     f"trial {tid} {tr['status']} in the backend before the last poll but counted as Stopped: it was never polled "
+                                     f"(start_jobs_without_delay={hdr['swd']})", {"trial": tid}))
+    # (e) results stored before stop_all
+    idx_end = [i for i, cc, a in calls if cc == ["cb", "tuning_end"]]
+    idx_all = [i for i, cc, a in calls if cc == ["be", "all_results"]]
+    if idx_all and (not idx_end or idx_end[0] > idx_all[0]):
+        out.append(F("c12:stop-all-before-results-stored", "stop_all ran before the callbacks' on_tuning_end"))
+    return out
+
+
+# ---------------------------------------------------------------------------------
+# C17: rows, statistics, best configuration, CSV round trip
+
+
+def _load_experiment_fn():
+    """`syne_tune.experiments.experiment_result.load_experiment` without executing the package __init__
+    (which imports the visualisation modules)"""
+    import types
+    import syne_tune
+    if "syne_tune.experiments" not in sys.modules or not hasattr(sys.modules["syne_tune.experiments"], "__path__"):
+        pkg = types.ModuleType("syne_tune.experiments")
+        pkg.__path__ = [os.path.join(os.path.dirname(syne_tune.__file__), "experiments")]
+        sys.modules["syne_tune.experiments"] = pkg
+    with contextlib.redirect_stdout(io.StringIO()):
+        from syne_tune.experiments.experiment_result import load_experiment
+    return load_experiment
+
+
+def _isnum(v):
+    return isinstance(v, numbers.Number) and not isinstance(v, complex)
+
+
+def _isnan(v):
+    try:
+        return _isnum(v) and math.isnan(float(v))
+    except (TypeError, ValueError):
+        return False
+
+
+def _same_cell(v, r):
+    """written value v, value r read back from the CSV (17 significant digits)"""
+    import pandas as pd
+    if v is None or _isnan(v):
+        return r is None or _isnan(r) or (isinstance(r, float) and math.isnan(r)) or pd.isna(r)
+    if _isnum(v):
+        try:
+            fr = float(r)
+        except (TypeError, ValueError):
+            return False
+        fv = float(v)
+        if math.isinf(fv) or math.isinf(fr):
+            return fv == fr
+        # pandas' default float parser is not correctly rounded: "up to the last digits of floating-point text"
+        # (measured: read_csv returns 0.0016982739998638 for the text 0.0016982739998638863, relative error 5e-14)
+        return fv == fr or abs(fv - fr) <= 2e-13 * max(abs(fv), abs(fr))
+    return str(v) == str(r)
+
+
+def experiment_view(t):
+    """load the experiment written by the run from disk; returns dict or None"""
+    if t["store"] is None:
+        return None
+    old = os.environ.get("SYNETUNE_FOLDER")
+    os.environ["SYNETUNE_FOLDER"] = t["tmp"]
+    try:
+        load_experiment = _load_experiment_fn()
+        with contextlib.redirect_stdout(io.StringIO()):
+            exp = load_experiment("t", download_if_not_found=False)
+        out = {"exp": exp, "best": []}
+        for i in range(len(t["names"])):
+            try:
+                with contextlib.redirect_stdout(io.StringIO()):
+                    out["best"].append(exp.best_config(metric=i))
+            except Exception as ex:  # noqa
+                out["best"].append("error:" + type(ex).__name__)
+        return out
+    finally:
+        if old is None:
+            os.environ.pop("SYNETUNE_FOLDER", None)
+        else:
+            os.environ["SYNETUNE_FOLDER"] = old
+
+
+def best_rows_wire(t, view):
+    """index of the table row that `ExperimentResult.best_config(metric=i)` returned (for comparison with the model)"""
+    if view is None or view["exp"].results is None:
+        return None
+    df = view["exp"].results
+    out = []
+    for b in view["best"]:
+        if isinstance(b, str):
+            out.append("error")
+            continue
+        idx = None
+        for k in range(len(df)):
+            row = {c: v for c, v in dict(df.iloc[k]).items() if not c.startswith("st_")}
+            if row.keys() == b.keys() and all(_same_cell(row[c], b[c]) and _same_cell(b[c], row[c]) for c in row):
+                idx = k
+                break
+        out.append(idx)
+    return out
+
+
+def monitor_c17(t, view=None):
+    out = []
+    dlg = t["dlg"]
+    calls = _calls(t)
+    names = t["names"]
+    mode = t["scheduler"].metric_mode()
+    modes = mode if isinstance(mode, list) else [mode] * len(names)
+    # values handed to the loop: every result of every poll (final content of the dicts)
+    handed = []
+    for i, c, a in calls:
+        if c[:2] == ["be", "fetch"] and isinstance(a, dict) and "results" in a:
+            for tid, rid, _ in a["results"]:
+                handed.append((tid, dlg.results[rid][1]))
+    # --- rows: one per delivered result, in order, with the annotations
+    rows = t["rows"]
+    if rows is not None:
+        delivered = [c for i, c, a in calls if c[:2] == ["cb", "result"] and a == {"ret": True}]
+        if len(rows) != len(delivered):
+            out.append(F("c17:row-count", f"{len(rows)} rows for {len(delivered)} delivered results"))
+        cfg_at = {}
+        k = 0
+        for i, c, a in calls:
+            if c[:2] == ["be", "start"] and a == {"ret": True}:
+                cfg_at[c[2]] = dlg.cfgs[c[3]]
+            if c[:2] == ["be", "resume"] and a == {"ret": True} and c[3] is not None:
+                cfg_at[c[2]] = dlg.cfgs[c[3]]
+            if c[:2] == ["cb", "result"] and a == {"ret": True} and k < len(rows):
+                row = rows[k]
+                k += 1
+                tid, rid, dec, st = c[2], c[3], c[4], c[5]
+                res = dlg.results[rid][1]
+                want = dict(res)
+                want[ST_DECISION], want[ST_STATUS], want[ST_TRIAL_ID] = dec, st, tid
+                for ck, cv in cfg_at.get(tid, {}).items():
+                    want["config_" + ck] = cv
+                got = dict(row)
+                if ST_TUNER_TIME not in got:
+                    out.append(F("c17:row-without-time-stamp", f"row {k - 1} has no {ST_TUNER_TIME}"))
+                if ST_TUNER_TIME not in want:
+                    got.pop(ST_TUNER_TIME, None)
+                if got.keys() != want.keys() or any(not (_same_cell(want[x], got[x]) and type(want[x]) == type(got[x])) for x in want):
+                    diff = {x: (want.get(x), got.get(x)) for x in set(want) | set(got) if not (x in want and x in got and _same_cell(want[x], got[x]))}
+                    out.append(F("c17:row-content", f"row {k - 1} (trial {tid}) differs from the delivered result: {diff}"))
+    # --- statistics
+    ts = t["tuner"].tuning_status
+    if ts is not None:
+        def expect(vals):
+            nums = [float(v) for v in vals if not _isnan(v)]
+            return (min(nums + [math.inf]), max(nums + [-math.inf]), len(vals))
+
+        def check(where, ms, results):
+            if ms.count != len(results):
+                out.append(F("c17:stats-count", f"{where}: count {ms.count} for {len(results)} results handed to the loop"))
+            keys = {}
+            for r in results:
+                for kk, v in r.items():
+                    keys.setdefault(kk, []).append(v)
+            for kk, vals in keys.items():
+                if not all(_isnum(v) for v in vals):
+                    continue  # mixed numeric / non-numeric: "types of first added metrics define its type" (model only)
+                mn, mx, _ = expect(vals)
+                if kk not in ms.min_metrics or float(ms.min_metrics[kk]) != mn or _isnan(ms.min_metrics[kk]):
+                    out.append(F("c17:stats-min", f"{where}: min of {kk} is {ms.min_metrics.get(kk)} but the values handed to the loop have min {mn}"))
+                if kk not in ms.max_metrics or float(ms.max_metrics[kk]) != mx or _isnan(ms.max_metrics[kk]):
+                    out.append(F("c17:stats-max", f"{where}: max of {kk} is {ms.max_metrics.get(kk)} but the values handed to the loop have max {mx}"))
+                tot = 0
+                for v in vals:
+                    tot = tot + v
+                got = ms.sum_metrics.get(kk)
+                if got is None or not ((_isnan(tot) and _isnan(got)) or float(tot) == float(got)):
+                    out.append(F("c17:stats-sum", f"{where}: sum of {kk} is {got}, expected {tot}"))
+
+        applied = handed
+        # results of an iteration that was aborted before `tuning_status.update` are not in the statistics
+        n_applied = ts.overall_metric_statistics.count
+        if n_applied <= len(handed):
+            applied = handed[:n_applied]
+        check("overall", ts.overall_metric_statistics, [r for _, r in applied])
+        per = {}
+        for tid, r in applied:
+            per.setdefault(tid, []).append(r)
+        for tid, rs in per.items():
+            check(f"trial {tid}", ts.trial_metric_statistics[tid], rs)
+        # --- best trial reported by the tuner
+        for i, name in enumerate(names):
+            vals = [(tid, float(r[name])) for tid, r in applied if name in r and _isnum(r[name]) and not _isnan(r[name])]
+            allnum = all(_isnum(r[name]) for _, r in applied if name in r)
+            if not vals or not allnum:
+                continue
+            with contextlib.redirect_stdout(io.StringIO()):
+                try:
+                    best_tid = t["tuner"].best_config(metric=i)[0]
+                except Exception as ex:  # noqa
+                    out.append(F("c17:best-config-raises", f"Tuner.best_config(metric={i}) raised {type(ex).__name__}"))
+                    continue
+            opt = min(v for _, v in vals) if modes[i] == "min" else max(v for _, v in vals)
+            mine = [v for tid, v in vals if tid == best_tid]
+            if not mine or (min(mine) if modes[i] == "min" else max(mine)) != opt:
+                out.append(F("c17:best-tuner", f"Tuner.best_config(metric={i}) names trial {best_tid} but the optimum ({modes[i]}) {opt} of {name} is attained elsewhere"))
+    # --- table read back from disk
+    if view is not None and rows is not None:
+        df = view["exp"].results
+        if df is None:
+            if rows:
+                out.append(F("c17:csv-missing", "results table could not be loaded although rows were stored"))
+        else:
+            if len(df) != len(rows):
+                out.append(F("c17:csv-rows", f"{len(df)} rows on disk for {len(rows)} rows in memory"))
+            else:
+                cols = []
+                for r in rows:
+                    for kk in r:
+                        if kk not in cols:
+                            cols.append(kk)
+                if list(df.columns) != cols:
+                    out.append(F("c17:csv-columns", f"columns on disk {list(df.columns)} in memory {cols}"))
+                else:
+                    for k, r in enumerate(rows):
+                        for kk in cols:
+                            if not _same_cell(r.get(kk), df.iloc[k][kk]):
+                                out.append(F("c17:csv-cell", f"row {k} column {kk}: stored {r.get(kk)!r} read back {df.iloc[k][kk]!r}"))
+                                break
+            # best configuration of the loaded experiment attains the optimum over the rows
+            for i, name in enumerate(names):
+                b = view["best"][i]
+                col = [r.get(name) for r in rows]
+                if not all(v is None or _isnum(v) for v in col):
+                    continue
+                nums = [float(v) for v in col if v is not None and not _isnan(v)]
+                if not nums:
+                    continue
+                if isinstance(b, str):
+                    out.append(F("c17:best-experiment", f"ExperimentResult.best_config(metric={i}) raised {b} although the column has numbers"))
+                    continue
+                opt = min(nums) if modes[i] == "min" else max(nums)
+                if b.get(name) is None or _isnan(b.get(name)) or float(b[name]) != opt:
+                    out.append(F("c17:best-experiment", f"ExperimentResult.best_config(metric={i}) has {name}={b.get(name)} but the optimum ({modes[i]}) over the rows is {opt}"))
+    return out
+
+
+def mode_lookup_lines(rng, dlg_keys=None, n=6):
+    """reference-style lines for `syne_tune.util.metric_name_mode` (C17 `mode_lookup`)"""
+    from syne_tune.util import metric_name_mode
+    out = []
+    for _ in range(n):
+        k = rng.randint(1, 4)
+        names = ["m%d" % rng.randint(0, 4) for _ in range(k)] if rng.random() < 0.3 else ["m%d" % i for i in range(k)]
+        is_list = rng.random() < 0.6
+        modes = [rng.choice(["min", "max"]) for _ in range(k if rng.random() < 0.85 else max(1, k - 1))] if is_list else rng.choice(["min", "max"])
+        keyof = lambda nm: int(nm[1:])
+        inp = {"op": "mode_lookup", "names": [keyof(x) for x in names], "modes": modes if is_list else [modes], "mode_is_list": is_list}
+        if rng.random() < 0.5:
+            sel = rng.choice(names + ["m9"])
+            inp["name"] = keyof(sel)
+        else:
+            sel = rng.randint(-k - 1, k + 1)
+            inp["index"] = sel
+        try:
+            with contextlib.redirect_stdout(io.StringIO()):
+                nm, md = metric_name_mode(list(names), list(modes) if is_list else modes, sel)
+            impl = {"name": keyof(nm), "mode": md}
+        except AssertionError:
+            impl = {"err": "assertion"}
+        except IndexError:
+            impl = {"err": "index-error"}
+        out.append((inp, impl))
     return out
